@@ -9,8 +9,15 @@
 (*            chunk: replies of the engine under test (r), replies of a    *)
 (*            fresh engine built from the same current objects (f), and    *)
 (*            the hook's projection of internal state.                     *)
+(*   Peek   - after every operation and every sweep: every memoised        *)
+(*            verdict reachable by a query of the sweep universe, read     *)
+(*            from the real cache through the hook VerifCachePeek.         *)
 (* A reply is accepted iff it equals EngineModel!ExpectedReply on the      *)
 (* current abstract objects AND equals the fresh engine's reply.           *)
+(* A memoised verdict is accepted iff it equals ExpectedReply on the       *)
+(* current objects (the invariant CacheCoherent of CacheDesign.tla,        *)
+(* evaluated on the implementation's cache at every step, whether or not   *)
+(* a later query happens to hit the entry).                                *)
 (***************************************************************************)
 EXTENDS EngineModel, Json, IOUtils
 
@@ -56,7 +63,16 @@ TraceSweep == /\ IsEvent("Sweep")
               /\ UNCHANGED <<cur, hid>>
               /\ Report(SweepMismatches(Trace[l]))
 
-Next == TraceInit \/ TraceOp \/ TraceSweep
+PeekMismatches(ev) ==
+  {<<"C15-stale-cached-verdict", ev.c[i].s, ev.c[i].d, ProtoSeq[ev.c[i].k], ev.c[i].n,
+     "cached", ev.c[i].v, "model", ExpectedReply(cur, ev.c[i].s, ev.c[i].d, <<ProtoSeq[ev.c[i].k], ev.c[i].n>>)>> :
+      i \in {j \in DOMAIN ev.c : ev.c[j].v # ExpectedReply(cur, ev.c[j].s, ev.c[j].d, <<ProtoSeq[ev.c[j].k], ev.c[j].n>>)}}
+
+TracePeek == /\ IsEvent("Peek")
+             /\ UNCHANGED <<cur, hid>>
+             /\ Report(PeekMismatches(Trace[l]))
+
+Next == TraceInit \/ TraceOp \/ TraceSweep \/ TracePeek
 Spec == Init /\ [][Next]_vars
 TraceAccepted == TLCGet("stats").diameter - 1 = Len(Trace)
 =============================================================================
